@@ -33,11 +33,82 @@ def make_baseline(d):
     return out
 
 
+def _adt_table(d):
+    out = {}
+    for a in d.get("adts", []):
+        vs = a.get("variants", [])
+        if a.get("k") != "Struct" or len(vs) != 1:
+            continue
+        out[a["path"]] = [[fl["n"], d["types"][fl["t"]]["s"] if isinstance(fl.get("t"), int) else "?", fl.get("vis")] for fl in vs[0]["fields"]]
+    return out
+
+
+def canonicalise_field_renames(d, base_adts):
+    """a private struct field that has a new name (same struct, same position, same type, the old name gone, the new name used by
+    no other type of the crate) is given its reviewed name in the ADT table, in every place projection and struct literal"""
+    done = []
+    cur = _adt_table(d)
+    all_names = {}
+    for path, fl in cur.items():
+        for n, t, v in fl:
+            all_names.setdefault(n, set()).add(path)
+    for a in d.get("adts", []):
+        for v in a.get("variants", []):
+            if a.get("k") != "Struct":
+                for fl in v["fields"]:
+                    all_names.setdefault(fl["n"], set()).add(a["path"])
+    base_names = set(n for fl in base_adts.values() for (n, t, v) in fl)
+    cand = {}
+    for path, old in base_adts.items():
+        new = cur.get(path)
+        if new is None or len(new) != len(old):
+            continue
+        for (on, ot, ov), (nn, nt, nv) in zip(old, new):
+            if on != nn and ot == nt and ov != "pub" and nv != "pub" and on not in [x[0] for x in new] and nn not in base_names \
+                    and not nn.isdigit():
+                cand.setdefault(nn, []).append((path, on))
+    ren = {}
+    for nn, lst in cand.items():
+        olds = set(on for (_, on) in lst)
+        # one consistent renaming: every type that has the new name had the same old name at that position
+        if len(olds) == 1 and set(p for (p, _) in lst) == all_names.get(nn, set()):
+            ren[nn] = next(iter(olds))
+            done.extend((p, nn, ren[nn]) for (p, _) in lst)
+    if not ren:
+        return done
+
+    def fix(x):
+        if isinstance(x, dict):
+            if "f" in x and x.get("n") in ren and len(x) <= 4:
+                x["n"] = ren[x["n"]]
+            if x.get("k") == "agg" and isinstance(x.get("fields"), list):
+                x["fields"] = [ren.get(n, n) for n in x["fields"]]
+            for v in x.values():
+                fix(v)
+        elif isinstance(x, list):
+            for v in x:
+                fix(v)
+    for a in d.get("adts", []):
+        for v in a.get("variants", []):
+            for fl in v["fields"]:
+                if fl["n"] in ren and a["path"] in [p for (p, nn, on) in done if nn == fl["n"]]:
+                    fl["n"] = ren[fl["n"]]
+    for f in d["fns"]:
+        if f.get("mir"):
+            fix(f["mir"]["blocks"])
+            for v in f["mir"].get("vars", []):
+                fix(v)
+    return done
+
+
 def canonicalise_renames(d):
     base = baseline_sigs()
     d["renamed_fns"] = []
     if not base:
         return []
+    if "__adts__" in base:
+        d["renamed_fields"] = canonicalise_field_renames(d, base["__adts__"])
+        base = {k: v for k, v in base.items() if k != "__adts__"}
     cur = set(f["id"] for f in d["fns"])
     missing = [i for i, v in base.items() if i not in cur and v.get("private") and v.get("sig")]
     if not missing:
@@ -104,6 +175,7 @@ if __name__ == "__main__":
     import extract
     d = json.load(open(extract.extract("K2")))
     out = make_baseline(d)
+    out["__adts__"] = _adt_table(d)
     p = os.path.join(os.path.dirname(os.path.dirname(os.path.abspath(__file__))), "baseline_sigs.json")
     json.dump(out, open(p, "w"), indent=0, sort_keys=True)
     print("wrote", p, len(out))
